@@ -96,9 +96,9 @@ extern "C" void harness_operator_pairs()  /* vf: bounds=parent_operator_x_child_
 {
     Ctx cx;
     vf_assert(cx.declare(DECLS) == 0, "declarations-accepted");
-    int pi = vf_pick("!parent", NOPS), ci = vf_pick("!child", NOPS);
+    int pi = vf_pick("parent", NOPS), ci = vf_pick("child", NOPS);
     const Op &P = OPS[pi], &C = OPS[ci];
-    int pos = vf_pick("!position", 3);
+    int pos = vf_pick("position", 3);
     vf_assume(pos < arity(P) && P.form != FIELD && !(P.form == INDEX && pos == 0));
     std::string leaves[3] = {LEAF[0], LEAF[1], LEAF[2]}, inner[3] = {"d", "b", "c"};
     std::string ops[3] = {leaves[0], leaves[1], leaves[2]};
@@ -113,7 +113,7 @@ extern "C" void harness_constants()  /* vf: bounds=integer_and_floating_constant
                                  "1234567.0", "0.30000000000000004", "3.141592653589793", "1e6", "1e5", "2.5e-3", "16777217.0", "1.0", "0.0", "9007199254740993.0", "1e23", "65536.125", "7e-5", "12345678.0"};
     Ctx cx;
     vf_assert(cx.declare(DECLS) == 0, "declarations-accepted");
-    int v = vf_pick("!value", 28), ctx = vf_pick("!context", 4);
+    int v = vf_pick("value", 28), ctx = vf_pick("context", 4);
     std::string t = VALS[v];
     if (ctx == 1) t = "-(" + t + ")"; else if (ctx == 2) t = "a - (" + t + ")"; else if (ctx == 3) t = "(" + t + ") * dd";
     roundtrip(cx, t, [&](const std::string& s) { return cx.expr(s.c_str()); });
@@ -124,9 +124,9 @@ extern "C" void harness_queries()  /* vf: bounds=query_forms_of_the_property(A[]
 {
     Ctx cx;
     vf_assert(cx.declare(DECLS) == 0, "declarations-accepted");
-    int form = vf_pick("!form", 36);
+    int form = vf_pick("form", 36);
     static const char* BOUND[] = {"<=10", "#<=10", "x<=10"};
-    std::string bnd = BOUND[vf_pick("!bound", 3)], runs = vf_pick("!runs", 2) ? "; 7" : "", pq = vf_pick("!box", 2) ? "[]" : "<>", cmp = vf_pick("!le", 2) ? "<=" : ">=";
+    std::string bnd = BOUND[vf_pick("bound", 3)], runs = vf_pick("!runs", 2) ? "; 7" : "", pq = vf_pick("!box", 2) ? "[]" : "<>", cmp = vf_pick("!le", 2) ? "<=" : ">=";
     std::string t;
     switch (form) {
     case 0: t = "A[] p && a < 3"; break;
@@ -181,7 +181,7 @@ extern "C" void harness_builtin_functions()  /* vf: bounds=61_built-in_functions
         {"random_tri", 3}, {"random_weibull", 2}};
     Ctx cx;
     vf_assert(cx.declare(DECLS) == 0, "declarations-accepted");
-    int f = vf_pick("!function", 61), nested = vf_pick("!nested", 2);
+    int f = vf_pick("function", 61), nested = vf_pick("nested", 2);
     static const char* ARGS[] = {"dd", "0.5", "a + 2.5"};
     std::string call = std::string(FNS[f].name) + "(";
     for (int k = 0; k < FNS[f].arity; k++) call += std::string(k ? ", " : "") + ARGS[k];
